@@ -601,6 +601,13 @@ def random_cases(rng, n_c, n_p, nseg):
         cases.append((c, int_stream(rng, c["burn_in"], max(3, nseg // 2), level)))
         c = cusum_cfgs(rng, 8)[k * 2 + 1]; c.update(form=form, burn_in=[2, 5][k % 2], target=None, sd=None)
         cases.append((c, int_stream(rng, c["burn_in"], max(3, nseg // 2), level)))
+    # the same kind of stream in tiny units (an exact power-of-two scale: 2^-40 ~ 1e-12, 2^-340 ~ 4e-103): the CUSUM test works on
+    # standardised observations and is unit-free -- a standard deviation of 1e-12 is not "0"
+    for k, sc in enumerate((2.0 ** -40, 2.0 ** -340, 2.0 ** -40, 2.0 ** -340)):
+        c = dict(cusum_cfgs(rng, 16)[k * 4 + 1 if k < 2 else k * 4 + 2]); c.update(form=0, burn_in=[5, 30][k % 2])
+        if c["target"] is not None:
+            c["target"], c["sd"] = c["target"] * sc, c["sd"] * sc
+        cases.append((c, [x * sc for x in gen_stream(rng, c["burn_in"], nseg)]))
     # a burn-in far longer than any plausible internal buffer (first-epoch and post-drift estimates read exactly burn_in observations)
     for b in (520, 800):
         c = cusum_cfgs(rng, 4)[1]; c.update(burn_in=b, target=None, sd=None, threshold=5.0, delta=0.25, form=0)
